@@ -90,7 +90,7 @@ func cacheReplay(args map[string]string) error {
 	if err != nil {
 		return err
 	}
-	defer pd.Close()
+	defer func() { pd.Close() }()
 	if err := pd.Bootstrap(); err != nil {
 		return err
 	}
@@ -195,6 +195,24 @@ func cacheReplay(args map[string]string) error {
 						ev["res"] = "ok"
 					}
 				}
+			} else if act == "Restart" {
+				// the PD process stops and a new one starts on the same data: the cluster is loaded back from storage, regions have
+				// no leader until they report
+				ev["ev"] = "Restart"
+				np, err := pd.Restart() // closing the server flushes the region storage
+				if err != nil {
+					return err
+				}
+				pd = np
+				dl := time.Now().Add(20 * time.Second)
+				for (pd.S.GetRaftCluster() == nil || !pd.S.GetRaftCluster().IsRunning()) && time.Now().Before(dl) {
+					time.Sleep(20 * time.Millisecond)
+				}
+				rc = pd.S.GetRaftCluster()
+				if rc == nil || !rc.IsRunning() {
+					return fmt.Errorf("no cluster after the restart")
+				}
+				storage = pd.S.GetStorage()
 			} else {
 				// StoreOps (folded into Commit by the binding) and ground-truth steps: nothing to drive
 				ev["ev"] = act
